@@ -115,6 +115,18 @@ PLANS = {
                 "global ticket t, or one constant incl. the -1.0 sentinel) while 1-2 readers probe; oracles: count never decreases, every probed (count, average) pair is possible, final count == number "
                 "of inc calls, final average == arithmetic mean (relative 2e-3); non-trivial = the compare-exchange retry path was really taken in the run",
                 [ser(10), free(8), ser(5, flavor="checked", shards=8)], [ser(100), free(100), ser(50, flavor="checked")], 2000, 20000),
+    "C09": plan("one evaluation = one execution on the mmap log channel (MAX_STREAMS 2/4/8): 1-4 publishers (send / send_with), 1-4 listener threads that subscribe after a scheduler-chosen delay (new only / old+new "
+                "split / old+new joined) and consume at their own pace; afterwards a fresh joined subscription is drained = the log's total order; oracles: total order contains every accepted event once and "
+                "respects each publisher's order, joined listeners == it, split: old ++ new == it and the old stream ended, new-only: gap-free suffix, same address per event for every listener, references "
+                "re-read unchanged at the end; the evidence counts splits that really happened while publishing was under way; distinct = (schedule, config)",
+                [ser(15), free(8), dict(flavor="asan", lane="free", secs=6, shards=4, crash_is_violation=True)], [ser(200), free(120), ser(60, flavor="checked"), dict(flavor="asan", lane="free", secs=80, crash_is_violation=True)], 1000, 10000,
+                ["the old-only subscription is unimplemented upstream and excluded, as the property says", "Miri and valgrind cannot run this channel (file-backed 2 TB sparse mmap); ASan can"]),
+    "C10": plan("workload `random`: one evaluation = one sequential history (5-400, thorough 5-2000 steps) over {create listener, send, receive one / all, drop listener (with or without unconsumed events), cancel all} "
+                "on a random non-log Multi kind (Uni kinds: create/drop bookkeeping only), MAX_STREAMS 1/2/4, the stream-id FIFO starting at 0, next to the 32-bit wrap or anywhere, compared step by step with "
+                "a reference model (live listeners; per listener the events accepted during its lifetime; running_streams_count == live; creation never panics below MAX_STREAMS); workload `exhaustive`: EVERY "
+                "legal history up to depth 7 (thorough 9; Uni kinds 6) for MAX_STREAMS 1 and 2, BUFFER_SIZE 2 and 4; non-trivial = at least one stream id was recycled in the history",
+                [dict(flavor="fast", lane="free", secs=8), dict(flavor="fast", lane="free", secs=15, args=["--set", "workload=exhaustive"]), dict(flavor="checked", lane="free", secs=6, shards=8)],
+                [dict(flavor="fast", lane="free", secs=120), dict(flavor="fast", lane="free", secs=300, args=["--set", "workload=exhaustive"]), dict(flavor="checked", lane="free", secs=80)], 5000, 50000),
 }
 
 LEVEL_NOTE = ("trusted base: the harness (conductor/chaos scheduler, recorder, checkers), the placement of the hook sites, x86-64/TSO for the free-running lane, "
@@ -175,4 +187,10 @@ META = {
     "C19": meta("conductor+chaos", "runtime monitoring: online checker of every probed (count, average) pair against what the recorded measurements allow, final conservation of the count; scheduler forces the CAS retry path",
                 "Randomised exploration with measurement sequences chosen so that a lost update or a mixed pair is arithmetically visible.",
                 "DESIGN.md section 2, C19"),
+    "C09": meta("conductor+chaos+asan", "runtime monitoring: offline checker over the sequences yielded by every listener against the log's total order (a post-run full replay), with subscriptions scheduled inside the publishers' reserve/fill/publish steps",
+                "Randomised exploration of late subscriptions racing concurrent publishers on the real mmap log channel.",
+                "DESIGN.md section 2, C09"),
+    "C10": meta("seqmodel", "runtime monitoring: reference-model monitor over listener life-cycle histories (exhaustive for small MAX_STREAMS, random long histories so that every stream id is recycled many times)",
+                "Exhaustive enumeration of short listener life-cycle histories plus randomised long ones, each compared step by step with an exact sequential model.",
+                "DESIGN.md section 2, C10"),
 }
